@@ -1,5 +1,6 @@
 """C13 — digit separators: dispatch, per-component consistency, counting protocol (DESIGN §4)."""
 from rules import sep as S
+from rules import extra as X
 from rules.core import guarded
 
 INFO = {
@@ -17,3 +18,4 @@ def run(col, configs, tier):
         guarded(col, S.rule_count_protocol, facts)
         guarded(col, S.rule_count_gating, facts)
         guarded(col, S.rule_slice_iterators, facts)
+        guarded(col, X.rule_slice_contiguity, facts)
